@@ -83,7 +83,12 @@ class SPSATerminationChecker:
         if len(self._function_value_history) < 2:
             return False
 
-        change = abs(function_value - self._function_value_history[-2]) / self._function_value_history[-2]
+        previous_function_value = self._function_value_history[-2]
+        change: float
+        if previous_function_value == 0:
+            change = float("inf")
+        else:
+            change = abs(function_value - previous_function_value) / abs(previous_function_value)
         self._change_history.append(change)
 
         if len(self._change_history) < self._allowed_consecutive_violations + 1:
